@@ -407,14 +407,19 @@ example : ∀ v, Mem (Env.ofFiles exOp [("./schema", exFile)]) v
 /-! ### OPEN — carried by K/O only
 
 PROVED since: the closed forms on the operation file linked with the generated schema file (`C09_vars_exact_closed`,
-`C09_sound_closed`, `C09_complete_closed`, leaf `C09_input_ref_exact` = C10's closed form through the module link), and
-the connection of `Spec/Coerce.lean`'s fuel-indexed executables with the propositions (`C09_explicit_spec_iff`,
-`C09_coercible_spec_iff`, `C09_coerceVal_spec_iff`, `C09_canonical_coercible`, `C09_explicit_coercible`).
+`C09_sound_closed`, `C09_complete_closed`, `C09_required_closed`, `C09_optional_iff_closed`, leaf `C09_input_ref_exact` =
+C10's closed form through the module link), and the connection of `Spec/Coerce.lean`'s fuel-indexed executables with the
+propositions (`C09_explicit_spec_iff`, `C09_coercible_spec_iff`, `C09_coerceVal_spec_iff`, `C09_coerceNamed_kinds`,
+`C09_canonical_coercible`, `C09_explicit_coercible`).
 
 Still open:
 * the operation declaration FILE is not modelled as a whole (only the `<Op>Variables` alias, `Model/VarTypes.lean`); the
   closed forms take its shape as hypotheses — flat, one star import `Schema`, first declaration of `<Op>Variables` is the
-  model's type — which K checks on the real parsed file (the alias) and `tsparse` (the shape).
+  model's type. K compares the first top-level alias of that name in the real parsed file with the model's type; flatness
+  and the single star import are not checked by any stream (O evaluates membership on the real parsed file as it is).
+* the closed forms speak of the MODEL's schema file (`schemaFile c doc = .ok F`); the real schema file is tied to it by K
+  only (`namespace __OperationInput`, scalar table). O evaluates the executables at the driver's fixed fuel, the theorems
+  say "some fuel".
 * `hvars` (every variable's named type is a defined scalar / enum / input object) is what `check_operation` guarantees
   (C05); not re-derived here.
 * The side condition `ScalarsStrict` (no configured scalar input text admits null / undefined) excludes scalar input
